@@ -742,7 +742,7 @@ class C10(Prop):
                 tag2 = LIST_TAGS[mk2[0]]
                 second = 'U%s c' % mk2 if tag2 == 'dl' else '%s c' % mk2
                 if form == 5 and rng.random() < 0.5:
-                    al, ah = rng.choice([(['<hr>', ''], '<hr>'), (['<br class="x">', ''], '<br class="x">'), (['<input type="text">', ''], '<input type="text">')])
+                    al, ah = rng.choice([(['<hr>', ''], '<hr>'), (['<hr class="x">', ''], '<hr class="x">'), (['<HR>', ''], '<HR>')])     # (block-level void elements: `<br>`, `<input>` are inline tags, i.e. item text)
                 blanks = [''] * rng.randint(1, 4)
                 item = (lambda t, tm, body: '<dt>%s</dt><dd>%s</dd>' % (tm, body) if t == 'dl' else '<li>%s</li>' % body)
                 if len(blanks) == 1:
